@@ -605,4 +605,41 @@ theorem C19_scenario_attempts (sc : Scenario) : ∀ (steps : List Step) (b : Bal
           · cases hfs
         · exact ih _ x hx
 
+/-! ## I. `Next` never comes back empty-handed while a target is there (round 5)
+
+The sequential fact behind the nil clause of the concurrent oracle (kind 4) and of the overlapped
+`Next` calls (kind 6): by `C19_linearizable` every concurrent history is such an op sequence, and a
+target that was added before a call started and is not removed until it returned is a member at the
+call's linearization point. -/
+
+/-- **C19_next_not_nil_while_present** — for every operation sequence from every state (any
+    balancer kind, indices, stored last indices): as long as no operation removes the name of a
+    target that is in the list, NO `Next` of the sequence returns `nil`. -/
+theorem C19_next_not_nil_while_present (ops : List Op) (t : Target) :
+    ∀ s : St, t ∈ s.bal.targets → (∀ o ∈ ops, ¬ o.removesName t.name) →
+      ∀ r ∈ (runOps s ops).2, r ≠ .pick .nil := by
+  induction ops with
+  | nil => intro s _ _ r hr; simp [runOps] at hr
+  | cons o os ih =>
+    intro s ht hno r hr
+    simp only [runOps, List.mem_cons] at hr
+    rcases hr with hr | hr
+    · subst hr
+      cases o with
+      | add x => simp [stepOp]
+      | remove n => simp [stepOp]
+      | next c hint =>
+        rcases C19_next_member s c hint with ⟨_, he⟩ | ⟨u, h, _⟩ | ⟨h, _⟩
+        · rw [he] at ht; simp at ht
+        · rw [h]; simp
+        · rw [h]; simp
+    · exact ih _ (stepOp_kept s o t (hno o (by simp)) ht) (fun o ho => hno o (by simp [ho])) r hr
+
+-- non-vacuity: the interleaving of seeded change 5/3 in its two legal orders — [a,b], index due on
+-- the last target, RemoveTarget("b") before or after the pick: never nil
+example : (runOps ⟨true, ⟨[⟨['a'], 0⟩, ⟨['b'], 1⟩], 1⟩, []⟩ [.next 0 none, .remove ['b']]).2
+    = [.pick (.tgt ⟨['b'], 1⟩), .bool true] := by decide
+example : (runOps ⟨true, ⟨[⟨['a'], 0⟩, ⟨['b'], 1⟩], 1⟩, []⟩ [.remove ['b'], .next 0 none]).2
+    = [.bool true, .pick (.tgt ⟨['a'], 0⟩)] := by decide
+
 end C19
